@@ -4,6 +4,13 @@ JUDGE = "Judge.C10"
 DRIVER = "c10"
 SHARD = 100
 
+# a panic inside the cache plugin (e.g. while it copies a message a caller is rewriting) is a failing history:
+# the property says callers' mutations and the stored copies never meet
+CRASH_VIOLATION = [
+    (r"(panic: |fatal error: concurrent map)[^\n]*\n(?:[^\n]*\n){0,60}?[^\n]*IrineSistiana/mosdns/v5/plugin/executable/cache",
+     "the cache plugin crashed while a caller was working on a message it had been handed (shared memory between the cache and a caller)"),
+]
+
 
 def driver_args(tier, seed, phase):
     if phase == "search":
